@@ -48,6 +48,8 @@ type C20Step struct {
 	// Reenter (logic and value steps): the step's logic evaluates the whole chain once more before it returns (a validation
 	// helper that re-validates, a second goroutine doing the same thing at that moment): each evaluation is one of its own.
 	Reenter bool `json:"reenter,omitempty"`
+	// TypedNil (with LogicErr): the error the logic returns is a nil pointer of an error type - a non-nil error value all the same
+	TypedNil bool `json:"typed_nil_error,omitempty"`
 }
 
 type C20Case struct {
@@ -125,6 +127,14 @@ func (tr *c20Trace) String() string {
 }
 
 var errC20 = errors.New("logic failed")
+
+type c20PtrErr struct{}
+
+func (*c20PtrErr) Error() string { return "logic failed (typed nil)" }
+
+type c20SliceErr []error
+
+func (c20SliceErr) Error() string { return "logic failed (empty list of errors)" }
 var errC20Callback = errors.New("failure callback aborted")
 
 // c20Eval runs CheckFailed; a panic raised by a failure callback of the chain itself is reported as failed = true (the chain did
@@ -161,6 +171,13 @@ func c20Build(steps []C20Step, tr *c20Trace) *checker.Checker {
 				tr.reenter()
 			}
 			if s.LogicErr {
+				if s.TypedNil {
+					if i%2 == 0 {
+						var e *c20PtrErr
+						return e
+					}
+					return c20SliceErr(nil)
+				}
 				return errC20
 			}
 			return nil
@@ -310,6 +327,7 @@ var c20Variants = []C20Step{
 	{Kind: kEquals, Value: "a/", Equal: "a"},
 	{Kind: kNotEmpty, Value: "", PanicCB: true},
 	{Kind: kValueStep, Reenter: true},
+	{Kind: kLogic, LogicErr: true, TypedNil: true},
 	{Kind: kCondNotEmpty, Cond: true, Value: "x"},
 	{Kind: kCondNotEmpty, Cond: true, Value: ""},
 	{Kind: kCondNotEmpty, Cond: false, Value: ""},
@@ -414,12 +432,13 @@ func TestC20Enum(t *testing.T) {
 	})
 }
 
-const c20Rule = "chains over the checker API: (a) every sequence of the 20 step variants (8 kinds x outcomes pass/fail/condition-false, plus an inequality by one trailing slash, a failing step whose callback panics, and a step that evaluates the whole chain again from inside itself) up to the stated length, enumerated exhaustively, each evaluated twice (three times when a step re-enters: inner and outer evaluations must each look like an evaluation of their own); (b) rapid-generated chains up to length 40 with random strings (incl. pairs that differ only by a trailing slash or blank, by letter case, by a prefix), bounds (0 = no bound, min>max allowed), value lists and failure callbacks that panic. Non-trivial: length >= 2 with a failing step that is not the last. Enumerated chains are distinct by construction; generated chains are distinct by (kind, reference outcome) vector."
+const c20Rule = "chains over the checker API: (a) every sequence of the 21 step variants (8 kinds x outcomes pass/fail/condition-false, plus an inequality by one trailing slash, a failing step whose callback panics, a step that evaluates the whole chain again from inside itself, and a logic step failing with a typed-nil error value) up to the stated length, enumerated exhaustively, each evaluated twice (three times when a step re-enters: inner and outer evaluations must each look like an evaluation of their own); (b) rapid-generated chains up to length 40 with random strings (incl. pairs that differ only by a trailing slash or blank, by letter case, by a prefix), bounds (0 = no bound, min>max allowed), value lists and failure callbacks that panic. Non-trivial: length >= 2 with a failing step that is not the last. Enumerated chains are distinct by construction; generated chains are distinct by (kind, reference outcome) vector."
 
 func genC20Step(t *rapid.T) C20Step {
 	s := C20Step{Kind: rapid.IntRange(0, 7).Draw(t, "kind")}
 	str := rapid.OneOf(rapid.Just(""), rapid.StringMatching(`[a-z ]{0,12}`), rapid.StringMatching(`[a-zA-Z/:. ]{1,12}`), rapid.SampledFrom([]string{"/", "https://idp.example/saml/SSO", "https://idp.example/saml/SSO/", " ", "a//", "\x00", "é"}))
 	s.PanicCB = rapid.IntRange(0, 5).Draw(t, "panic-in-callback") == 0
+	s.TypedNil = rapid.IntRange(0, 3).Draw(t, "typednil") == 0
 	s.Reenter = (s.Kind == kLogic || s.Kind == kValueStep || s.Kind == kCondLogic) && rapid.IntRange(0, 3).Draw(t, "reenter") == 0
 	switch s.Kind {
 	case kNotEmpty:
